@@ -437,3 +437,113 @@ pub fn series(tier: &str) -> Vec<Series> {
     }
     v
 }
+
+// ---------------------------------------------------------------------------------------
+// (O) overflow indication, per type: set from a discard until a confirmation leaves *every*
+// type below capacity (used by C13)
+// ---------------------------------------------------------------------------------------
+
+pub struct OverflowPerType;
+
+impl CaseSpace for OverflowPerType {
+    fn name(&self) -> String {
+        "overflow-indication-per-type".into()
+    }
+    fn total(&self) -> usize {
+        8 * 8 * 2
+    }
+    fn run(&self, index: usize, transcript: bool) -> RunResult {
+        let mut res = RunResult::default();
+        let t_full = index % 8; // the type that sits at (or just below) capacity
+        let u_over = (index / 8) % 8; // the type that overflowed
+        let at_capacity = index / 64 == 0;
+        res.obs = index as u64 + 131313;
+        if t_full == u_over {
+            return res;
+        }
+        let limit = 2u64;
+        let cfg = OCfg { event_buf: [limit as u16; 8], confirm_timeout_ms: TO, class_zero_octet_strings: true, ..Default::default() };
+        let mut sim = OSim::new(&cfg, 1);
+        sim.db(|db| {
+            add_point(db, u_over, 0, EventClass::Class1);
+            add_point(db, t_full, 0, EventClass::Class2);
+        });
+        let key = format!("{}-at-capacity:{}-overflowed", TYPES[t_full], TYPES[u_over]);
+        let mut n = 0u64;
+        for _ in 0..limit + 1 {
+            sim.db(|db| update(db, u_over, 0, n, false));
+            n += 1;
+        }
+        for _ in 0..(if at_capacity { limit } else { limit - 1 }) {
+            sim.db(|db| update(db, t_full, 0, n, false));
+            n += 1;
+        }
+        sim.take_out();
+        let mut seq = 0u8;
+        let mut ask = |sim: &mut OSim, func: u8, objs: &[u8]| -> Option<app::Resp> {
+            seq = (seq + 1) & 0x0F;
+            sim.take_out();
+            sim.send(&app::request(seq, func, objs));
+            responses(sim).into_iter().last()
+        };
+        let overflow = |r: &app::Resp| r.iin2 & 0x08 != 0;
+        // 1. the discard is reported
+        let Some(r1) = ask(&mut sim, fc::READ, &app::class_headers(true, false, false, false)) else {
+            res.violation = Some(Violation::new("C13.O0", key, "READ class 1 not answered".to_string()));
+            return res;
+        };
+        res.transitions += 1;
+        if transcript {
+            res.transcript.push(format!("READ class 1 -> {}", app::hex(&r1.raw[..4])));
+        }
+        if !overflow(&r1) {
+            res.violation = Some(Violation::new("C13.O1", key, "an event was discarded but the response does not report EVENT_BUFFER_OVERFLOW".to_string()));
+            return res;
+        }
+        sim.send(&app::confirm(r1.seq(), false));
+        // 2. after the confirmation the bit stays exactly if some type is still at capacity
+        let Some(r2) = ask(&mut sim, fc::DELAY_MEASURE, &[]) else {
+            res.violation = Some(Violation::new("C13.O0", key, "request not answered".to_string()));
+            return res;
+        };
+        res.transitions += 1;
+        if transcript {
+            res.transcript.push(format!("after the confirm -> {} ({} holds {} of {limit})", app::hex(&r2.raw[..4]), TYPES[t_full], if at_capacity { limit } else { limit - 1 }));
+        }
+        if overflow(&r2) != at_capacity {
+            res.violation = Some(Violation::new(
+                "C13.O2",
+                key,
+                format!(
+                    "after the confirmation released the {} events, {} holds {} of {limit} events: EVENT_BUFFER_OVERFLOW is {}",
+                    TYPES[u_over],
+                    TYPES[t_full],
+                    if at_capacity { limit } else { limit - 1 },
+                    if overflow(&r2) { "still set although every type is below capacity" } else { "cleared although a type is still at capacity" }
+                ),
+            ));
+            return res;
+        }
+        // 3. once that type is read and confirmed too, the bit clears
+        if at_capacity {
+            if let Some(r3) = ask(&mut sim, fc::READ, &app::class_headers(false, true, false, false)) {
+                sim.send(&app::confirm(r3.seq(), false));
+            }
+            let Some(r4) = ask(&mut sim, fc::DELAY_MEASURE, &[]) else {
+                res.violation = Some(Violation::new("C13.O0", key, "request not answered".to_string()));
+                return res;
+            };
+            res.transitions += 1;
+            if overflow(&r4) {
+                res.violation = Some(Violation::new("C13.O3", key, "every type is below capacity after the second confirmation, EVENT_BUFFER_OVERFLOW is still set".to_string()));
+                return res;
+            }
+        }
+        if let Some(f) = sim.failure() {
+            res.violation = Some(Violation::new("C13.X0", f.clone(), f));
+        }
+        res.nontrivial = true;
+        res.model_states.push(index as u64);
+        res
+    }
+}
